@@ -23,6 +23,7 @@ def parseAct (j : Json) : Except String Act := do
   | .arr #[.str "commitMid"] => pure .commitMid
   | .arr #[.str "rollback"] => pure .rollback
   | .arr #[.str "begin"] => pure .begin
+  | .arr #[.str "refused"] => pure .refused
   | _ => throw s!"bad action {j.compress}"
 
 def resJson : Res → Json
